@@ -77,7 +77,7 @@ const P3C: &str = "const K: u8 = PARTY_0::K;\npub fn main(a: u8, b: u8, c: u8) -
 const P3C2: &str = "const K: u8 = PARTY_0::K;\nconst L: u8 = PARTY_2::L;\npub fn main(a: u8, b: u8, c: u8) -> u8 { a + b + c + K + L }";
 const P2C: &str = "const K: u8 = PARTY_0::K;\npub fn main(a: u8, b: u8) -> u8 { a + b + K }";
 fn policy(n: usize, party: usize, leader: usize, out: bool, id: Uuid, prog: &str, consts: bool) -> Policy {
-    let mut constants = HashMap::new(); if consts && party == 0 && prog.contains("PARTY_0::K") { constants.insert("K".to_string(), Literal::from(5u8)); }
+    let mut constants = HashMap::new(); if consts && party == 0 && prog.contains("PARTY_0::K") { constants.insert(if WRONG_CONST.load(Ordering::SeqCst) { "M" } else { "K" }.to_string(), Literal::from(5u8)); }
     if consts && party == 2 && prog.contains("PARTY_2::L") { constants.insert("L".to_string(), Literal::from(5u8)); }
     Policy { computation_id: id, participants: (0..n).map(|i| Url::parse(&format!("http://h{i}")).unwrap()).collect(), program: prog.to_string(), leader, party,
         input: Literal::from((party as u8) + 3), output: if out { Some(Url::parse(&format!("http://out{party}")).unwrap()) } else { None }, constants }
@@ -118,7 +118,13 @@ async fn explore2(s: &Sys, r: &mut Rng, fail: Option<(&'static str, usize)>, mut
 /// a coordination RPC (kind, from, to) that the explorer does not release while this is set
 static HOLD: Mutex<Option<(&'static str, usize, usize)>> = Mutex::new(None);
 #[derive(Debug, Clone)]
-enum Inject { Cancel(usize), MsgOob(usize), DupSchedule(usize, bool), StrayRun(usize), StrayConsts(usize), StrayValidate(usize), RescheduleWith(usize, &'static str) }
+enum Inject { Cancel(usize), MsgOob(usize), DupSchedule(usize, bool), StrayRun(usize), StrayConsts(usize), StrayValidate(usize), RescheduleWith(usize, &'static str), LateSchedule(usize) }
+/// a party whose own schedule call is NOT issued at the start of the scenario but by `Inject::LateSchedule` (its prepared policy waits in `LATE_POLICY`)
+static LATE: Mutex<Option<usize>> = Mutex::new(None);
+static LATE_POLICY: Mutex<Option<Policy>> = Mutex::new(None);
+static LATE_TASK: Mutex<Option<tokio::task::JoinHandle<Result<Result<(), HandleError<ScheduleError>>, tokio::time::error::Elapsed>>>> = Mutex::new(None);
+/// party 0 announces its constant under a wrong name (`M` instead of `K`): the program type-checks and validates, compilation fails after the constants exchange
+static WRONG_CONST: std::sync::atomic::AtomicBool = std::sync::atomic::AtomicBool::new(false);
 /// the leader of the scenario that is running (stray policies name it, so that a stray schedule at a follower is a follower's schedule)
 static LEADER: AtomicUsize = AtomicUsize::new(0);
 async fn do_inject(s: &Sys, inj: Inject, log: &mut Vec<String>) {
@@ -130,6 +136,8 @@ async fn do_inject(s: &Sys, inj: Inject, log: &mut Vec<String>) {
             let now: Vec<String> = s.sh.outputs.lock().unwrap().iter().filter(|(q, _)| *q == p).map(|(_, x)| x.clone()).collect();
             format!("{res} at-return={}", now.join("|")) }
         Inject::MsgOob(p) => format!("{:?}", tokio::time::timeout(t, s.handles[p].mpc_msg(MpcMsg { from: 9, data: vec![1, 2, 3] })).await.map(|r| r.map_err(|e| format!("{e:?}")))),
+        Inject::LateSchedule(p) => { let pol = LATE_POLICY.lock().unwrap().take().expect("late policy prepared"); let h = s.handles[p].clone();
+            *LATE_TASK.lock().unwrap() = Some(tokio::spawn(async move { tokio::time::timeout(Duration::from_secs(20), h.schedule(pol)).await })); "scheduled".to_string() }
         Inject::RescheduleWith(p, prog) => { let n = s.handles.len(); let pol = policy(n, p, LEADER.load(Ordering::SeqCst), true, id, prog, false);
             format!("{:?}", tokio::time::timeout(t, s.handles[p].schedule(pol)).await.map(|r| r.map_err(|e| format!("{e:?}").chars().take(60).collect::<String>()))) }
         Inject::DupSchedule(p, illtyped) => { let n = s.handles.len(); let pol = policy(n, p, LEADER.load(Ordering::SeqCst), true, id, if illtyped { "pub fn main(a: u8) -> u8 { a + true }" } else if n == 2 { P2 } else { P3 }, false);
@@ -175,12 +183,15 @@ async fn scenario2(n: usize, leader: usize, outs: &[bool], consts: bool, progs: 
     let s = sys(n, conc, true); let id = Uuid::from_u128(7); LEADER.store(leader, Ordering::SeqCst);
     let mut order: Vec<usize> = (0..n).collect(); for i in (1..n).rev() { let j = r.below(i as u64 + 1) as usize; order.swap(i, j); }
     let mut sched_tasks = vec![];
+    let late = *LATE.lock().unwrap();
     for &p in &order { let h = s.handles[p].clone(); let pol = policy(n, p, leaders[p], outs[p], id, progs[p], consts);
+        if late == Some(p) { *LATE_POLICY.lock().unwrap() = Some(pol); continue; }
         sched_tasks.push((p, tokio::spawn(async move { tokio::time::timeout(Duration::from_secs(20), h.schedule(pol)).await })));
         if r.bool() { settle().await; } }
     let _ = leader;
     let log = explore2(&s, r, fail, hook, fast, 1200).await;
     let mut sched = vec![String::new(); n];
+    if let (Some(p), Some(t)) = (late, LATE_TASK.lock().unwrap().take()) { sched_tasks.push((p, t)); }
     for (p, t) in sched_tasks { sched[p] = if t.is_finished() { match t.await { Ok(Ok(Ok(()))) => "Ok".into(), Ok(Ok(Err(e))) => format!("Err({})", format!("{e:?}").chars().take(50).collect::<String>()), Ok(Err(_)) => "Timeout".into(), Err(_) => "JoinErr".into() } } else { t.abort(); "Pending".into() }; }
     let finished: Vec<bool> = s.joins.iter().map(|j| j.is_finished()).collect(); let mut panicked = vec![false; n];
     for (p, j) in s.joins.into_iter().enumerate() { if finished[p] { panicked[p] = j.await.is_err(); } else { j.abort(); } }
@@ -298,6 +309,28 @@ async fn main() {
                     if !bad.is_empty() { failures.push(json!({"witness": "C14:dup-schedule-consts-window", "failure": bad, "case": json!({"n": n, "leader": leader, "program": "two const suppliers (0, 2)", "held": "consts 2->1", "log": o.log})})); }
                     continue;
                 }
+                // corpus: the leader's validate reaches a follower that has not been scheduled yet (it is held back: ValidateRequested); a SECOND validate
+                // arrives (invalid for that state: answered with an error); then the follower is scheduled. The computation must complete.
+                // … and the same with every other command that is invalid while a validate is pending before the own schedule (cases 4..9, then one in five seeded cases)
+                if (2..10).contains(&case) || case % 5 == 4 {
+                    let (n, leader) = if case < 10 { (2usize, case % 2) } else { (n, leader) }; let fol = (leader + 1 + if case < 10 { 0 } else { r.below(n as u64 - 1) as usize }) % n; let outs = vec![true; n];
+                    let stray = match if case < 10 { (case - 2) / 2 } else { r.below(4) as usize } { 0 => Inject::StrayValidate(fol), 1 => Inject::StrayRun(fol), 2 => Inject::StrayConsts(fol), _ => Inject::MsgOob(fol) };
+                    let (stray2, p2) = (stray.clone(), if n == 2 { P2 } else { P3 });
+                    // the stray command is injected once the leader's validate has been handed to the late follower (all validates delivered: step >= n-1)
+                    *LATE.lock().unwrap() = Some(fol); let mut phase = 0;
+                    let o = scenario(n, leader, &outs, false, &vec![p2; n], &vec![leader; n], 1, &mut r, None, move |step, idle| {
+                        if phase == 0 && step >= n - 1 && idle >= 2 { phase = 1; Some(stray2.clone()) } else if phase == 1 && idle >= 2 { phase = 2; Some(Inject::LateSchedule(fol)) } else { None } }).await; execs += 1;
+                    *LATE.lock().unwrap() = None; *LATE_POLICY.lock().unwrap() = None;
+                    *dist.entry(format!("inject:{}-before-late-schedule", format!("{stray:?}").split('(').next().unwrap())).or_default() += 1; distinct.insert(format!("late {stray:?} {leader} {n}"));
+
+                    let want = expected_prog(n, p2); let mut bad = vec![]; let reply = o.log.iter().skip_while(|l| !l.starts_with("inject@")).nth(1).cloned().unwrap_or_default();
+                    if !reply.contains("Ok(Err(") { bad.push(format!("{stray:?} (invalid in that state) was not answered with an error: {reply}")); }
+                    for p in 0..n { let got: Vec<&String> = o.outputs.iter().filter(|(q, _)| *q == p).map(|(_, s)| s).collect(); if got != vec![&want] { bad.push(format!("party {p} destination got {got:?}, want one {want}")); } }
+                    if o.sched.iter().any(|x| x != "Ok") { bad.push(format!("schedule calls: {:?}", o.sched)); }
+                    if o.finished.iter().any(|f| !f) { bad.push(format!("state machines not stopped: {:?}", o.finished)); } if o.panicked.iter().any(|p| *p) { bad.push("actor panicked".into()); }
+                    if !bad.is_empty() { failures.push(json!({"witness": "C14:stray-before-late-schedule", "failure": bad, "case": json!({"n": n, "leader": leader, "late_follower": fol, "stray": format!("{stray:?}"), "log": o.log})})); }
+                    continue;
+                }
                 let mut at = r.below(6) as usize; let victim = r.below(n as u64) as usize; let kind = r.below(6); if kind == 1 || kind == 2 { at = at.max(1); } if kind == 5 { at = 2 * (n - 1); } // a validate is only *invalid for the state* once the party is past AwaitingValidation
                 let inj = match kind { 0 => Inject::MsgOob(victim), 1 => Inject::DupSchedule(victim, false), 2 => Inject::DupSchedule(victim, true), 3 => Inject::StrayRun(victim), 4 => Inject::StrayConsts(victim), _ => Inject::StrayValidate(victim) };
                 let inj2 = inj.clone(); let mut done = false;
@@ -392,6 +425,23 @@ async fn main() {
                 if samples.len() < 2 { samples.push(desc(json!({"what": what, "bad_follower": bad_follower, "sched": o.sched}))); }
             }
             "C17" => {
+                // corpus: the policy ends with a COMPILE error after the constants exchange (party 0 announces its constant under another name than the
+                // program reads: type check and validation pass, `compile_with_options` fails at every party): every state machine ends, the budget is back
+                if case >= 12 && case < 16 {
+                    let (n, leader, dest) = (2usize, case % 2, case < 14); let outs = vec![dest; 2];
+                    WRONG_CONST.store(true, Ordering::SeqCst);
+                    let o = scenario(n, leader, &outs, true, &vec![P2C; n], &vec![leader; n], 1, &mut r, None, |_, _| None).await; execs += 1;
+                    WRONG_CONST.store(false, Ordering::SeqCst);
+                    *dist.entry("end:compile-error".into()).or_default() += 1; distinct.insert(format!("compile-error {leader} {dest}"));
+                    let mut bad = vec![];
+                    if o.finished.iter().any(|f| !f) { bad.push(format!("state machines still running after the policy ended with a compile error: {:?}", o.finished)); }
+                    if o.permits.iter().any(|p| *p != 1) { bad.push(format!("permits after the policy ended: {:?}, budget 1", o.permits)); }
+                    if o.panicked.iter().any(|p| *p) { bad.push("actor panicked".into()); }
+                    if dest { for p in 0..n { let got: Vec<&String> = o.outputs.iter().filter(|(q, _)| *q == p).map(|(_, s)| s).collect(); if got.len() != 1 || !got[0].starts_with("Err(") { bad.push(format!("party {p} destination got {got:?}, want one error notification")); } } }
+                    if !bad.is_empty() { failures.push(json!({"witness": "C17:compile-error-end", "failure": bad, "case": json!({"n": n, "leader": leader, "destinations": dest, "constant_announced_as": "M", "program_reads": "PARTY_0::K", "outputs": o.outputs, "log": o.log})})); }
+                    if samples.len() < 3 { samples.push(json!({"compile_error_end": {"leader": leader, "permits": o.permits, "outputs": o.outputs}})); }
+                    continue;
+                }
                 // corpus first: every RPC kind x both leaders x destinations absent/present (n = 2), deterministically; then seeded random scenarios
                 let fixed = case < 12;
                 let kind = if fixed { ["validate", "run", "consts"][case % 3] } else { ["validate", "run", "consts"][r.below(3) as usize] }; let consts2 = if fixed { kind == "consts" } else { consts || kind == "consts" }; let n2 = if fixed { 2 } else if consts2 { n } else { n }; let prog2 = if consts2 { if n2 == 2 { P2C } else { P3C } } else if n2 == 2 { P2 } else { P3 };
